@@ -218,3 +218,58 @@ pub fn run_history_ex(entry: &ConfigEntry, ops: &[Op], params: &RunParams, group
     }
     out
 }
+
+
+/// C03: "a fixed workload run in a reset() loop stops requesting chunks after finitely many rounds".
+/// Runs `ops; reset()` `rounds` times on one arena; returns a violation message if one of the last two rounds
+/// reached the base allocator or if reset() left more than one chunk.
+pub fn run_reset_loop(entry: &ConfigEntry, ops: &[Op], params: &RunParams, rounds: usize) -> Option<String> {
+    slab::select(0);
+    slab::reset(0, params.slab);
+    let _ = crash::take_last_panic();
+    let opts = RunOpts { groups: 0, h: params.h, last_only: true, raw_roundtrip: false, probes: false };
+    let ctx = InflightCtx { cfg: &entry.cfg, params, ops };
+    crash::set_inflight_lazy(&ctx as *const _ as *const (), fmt_inflight);
+    let mut msg: Option<String> = None;
+    let r = catch_unwind(AssertUnwindSafe(|| {
+        (entry.with_root)(params.ctor, false, &mut |arena| {
+            let mut calls_after_round = Vec::new();
+            // a *fixed* workload: state-relative arguments (`remaining + 1`) keep the concrete values of round 0
+            let mut rem_log = Vec::new();
+            for round in 0..rounds {
+                let mut exec = Exec::new(ops, &opts);
+                if round > 0 {
+                    exec.rem_log = rem_log.clone();
+                    exec.replaying = true;
+                }
+                let _ = exec.run(arena, None);
+                if round == 0 {
+                    rem_log = exec.rem_log.clone();
+                }
+                if exec.disabled_at.is_some() {
+                    return;
+                }
+                if !arena.d_reset() {
+                    return;
+                }
+                arena.d_stats(&mut exec.st);
+                if exec.st.count > 1 && msg.is_none() {
+                    msg = Some(format!("after round {round} reset() left {} chunks", exec.st.count));
+                }
+                calls_after_round.push(slab::with_slab(0, |s| s.calls));
+            }
+            let n = calls_after_round.len();
+            if n >= 3 && calls_after_round[n - 1] != calls_after_round[n - 3] && msg.is_none() {
+                msg = Some(format!(
+                    "the workload still requested chunks in the last two of {rounds} `workload; reset()` rounds (base-allocator calls after each round: {:?})",
+                    calls_after_round
+                ));
+            }
+        })
+    }));
+    crash::clear_inflight();
+    if r.is_err() && msg.is_none() {
+        msg = Some(format!("panic in the reset loop: {}", crash::take_last_panic().unwrap_or_default()));
+    }
+    msg
+}
